@@ -228,11 +228,20 @@ pub fn run(ctx: &mut Ctx) {
             }
             let pat = nth_string(si, len, &ALPHA);
             for edge in [512usize, 1024] {
-                for shift in 0..=len {
-                    // pattern starts at edge - shift
-                    let mut s = vec![b'x'; edge - shift];
-                    s.extend_from_slice(&pat);
-                    s.extend_from_slice(b"yy");
+                // shift 0..=len: pattern straddles the edge, followed by more text;
+                // shift len+1 / len+2 / len+3: the *text ends* exactly at edge-1 / edge / edge+1
+                for shift in 0..=len + 3 {
+                    let mut s;
+                    if shift <= len {
+                        // pattern starts at edge - shift
+                        s = vec![b'x'; edge - shift];
+                        s.extend_from_slice(&pat);
+                        s.extend_from_slice(b"yy");
+                    } else {
+                        let end = edge + (shift - len) - 2; // edge-1, edge, edge+1
+                        s = vec![b'x'; end - len];
+                        s.extend_from_slice(&pat);
+                    }
                     let canon = rfc::canon_text(&s);
                     let scheds = [
                         Sched::All,
@@ -331,7 +340,7 @@ pub fn run(ctx: &mut Ctx) {
             continue;
         }
         let mut rng = ctx.rng("D", i);
-        let total = [600usize, 1500, 8192 + 700, 3 * 8192 + 5][(i % 4) as usize];
+        let total = [600usize, 1500, 8192 + 700, 3 * 8192 + 5, 512, 1024, 8192, 2 * 8192, 511, 513, 8191, 8193][(i % 12) as usize];
         let mut s: Vec<u8> = (0..total)
             .map(|_| match rng.gen_range(0..12) {
                 0 => b'\r',
@@ -351,6 +360,17 @@ pub fn run(ctx: &mut Ctx) {
                         s[edge] = b'\n'
                     }
                     _ => {}
+                }
+            }
+        }
+        if i % 12 >= 4 {
+            let l = s.len();
+            match (i / 12) % 3 {
+                0 => s[l - 1] = b'\r',
+                1 => s[l - 1] = b'\n',
+                _ => {
+                    s[l - 2] = b'\r';
+                    s[l - 1] = b'\n'
                 }
             }
         }
